@@ -451,6 +451,7 @@ class Plane:
 
         out = lentil.Wavefront.empty(wavelength=wavefront.wavelength,
                                      pixelscale=pixelscale,
+                                     diameter=wavefront.diameter,
                                      focal_length=wavefront.focal_length,
                                      shape=shape,
                                      ptype=ptype)
